@@ -328,8 +328,23 @@ fn embed(fe: Fe, rng: &mut Rng, text: &str) -> String {
             1 => format!("<div class=\"x\"><b>{text}</b> <i>more</i></div>\n<script>var a = 1;</script>"),
             _ => format!("<html><body><h1>T\u{00E9}st</h1>\n<p>{text}"),
         },
-        Fe::Typst => match rng.below(4) {
+        Fe::Typst => match rng.below(6) {
             0 => text.to_string(),
+            4 => {
+                // code constructs with hostile identifiers around the prose
+                let idents = ["a", "an", "the", "_private", "_", "x-y", "\u{00E9}t\u{00E9}", "how", "then", "I", "_1"];
+                let a = idents[rng.below(idents.len())];
+                let b = idents[rng.below(idents.len())];
+                let c = idents[rng.below(idents.len())];
+                match rng.below(5) {
+                    0 => format!("{text} #config.{a}.{b}.{c} {text}"),
+                    1 => format!("#let ({a}, {b}) = (1, 2)\n{text} #{a}.{b}"),
+                    2 => format!("#f({a}: {b}, {c}: \"{text}\")[{text}]"),
+                    3 => format!("#({a}: 1, {b}: 2).{c} {text}"),
+                    _ => format!("The value is #settings.{a}.{b} today. {text}"),
+                }
+            }
+            5 => format!("#let x = (a: \"{text}\", _b: [{text}])\n#x.a #x._b\n- {text}\n+ {text}\n/ Term: {text}"),
             1 => format!("= Heading\n{text}\n#let x = \"{text}\""),
             2 => format!("#set text(font: \"x\")\n*{text}* _more_ $x^2$"),
             _ => format!("#show \"a\": \"b\"\n{text} #emph[{text}]"),
